@@ -93,6 +93,37 @@ def explore(ctx, n, nlayouts, compare=True):
                 ctx.violation("row-depends-on-batch-context", inputs[i],
                               "alone: %s vs in batch: %s" % (s["out"], key_row(base["out"][i])), "synrbl/balancing.py id/index plumbing")
                 break
+    # one long-lived Balancer object called repeatedly: first over other reactions (the reversed list with every second
+    # row dropped, as dictionary rows), then over the subset, then over the subset again — what the object saw before must
+    # not matter
+    from synrbl import Balancer
+
+    obj = Balancer(n_jobs=4)
+    warm = [{"reaction": r, "id": 1000 + i} for i, r in enumerate(reversed(inputs)) if i % 2 == 0]
+    first = pipeline.traced_run(warm, balancer=obj)
+    if compare:
+        pipeline.compare_trace(ctx, first)
+    for rep in ("second call", "third call"):
+        tr = pipeline.traced_run(list(inputs), balancer=obj)
+        tr["n_jobs"] = 4
+        if compare:
+            pipeline.compare_trace(ctx, tr)
+        ctx.count("layout:same-object-" + rep.replace(" ", "-"))
+        results.append(("same object, " + rep, list(range(len(inputs))), tr))
+    # another configuration: caller-chosen column names (the row keys of the result follow the configuration); untraced —
+    # the statement compares the real rows with the rows of the default configuration
+    import copy
+
+    try:
+        st = {}
+        cb = Balancer(reaction_col="rxn", id_col="rid", n_jobs=4, batch_size=max(2, len(inputs) // 3))
+        out = cb.rebalance([{"rxn": r, "rid": 500 + 3 * i, "note": i} for i, r in enumerate(copy.deepcopy(inputs))], output_dict=True, stats=st)
+        out = [dict({k: v for k, v in r.items() if k != "rxn"}, reaction=r.get("rxn")) for r in out]
+        err = None
+    except Exception as e:
+        out, st, err = None, None, "%s: %s" % (type(e).__name__, e)
+    ctx.count("layout:custom-column-names")
+    results.append(("columns rxn/rid", list(range(len(inputs))), {"out": out, "stats": st, "error": err, "n_jobs": 4}))
     statement(ctx, inputs, results)
     return inputs, results
 
@@ -106,7 +137,9 @@ def run(ctx):
         ctx,
         MODULE,
         "a seeded subset of the shared workload processed (a) as one batch with 12 workers, (b) under seeded permutations x "
-        "batch sizes {1,2,3,5,7,n/2+1,n+1} x worker counts {1,2,4,8,16}, (c) one reaction at a time; all rows (reaction, solved, "
+        "batch sizes {1,2,3,5,7,n/2+1,n+1} x worker counts {1,2,4,8,16}, (c) one reaction at a time, (d) as the second and third call "
+        "on one long-lived Balancer object that first processed other rows, (e) under caller-chosen column names (reaction_col='rxn', "
+        "id_col='rid', own ids, extra column); all rows (reaction, solved, "
         "method, confidence, rules, issue) must be identical per reaction and the statistics identical; every layout is traced "
         "and compared with the Lean row machine, whose single-row answer must equal every real answer "
         "(non-trivial: every case; distinct by reaction and layout)",
